@@ -84,6 +84,8 @@ Definition num_cmp (a b : numv) : option comparison :=
 Definition has_dnan (a b : numv) : bool :=
   match a, b with NNanD, _ | _, NNanD => true | _, _ => false end.
 
+Definition is_fnan (a : numv) : bool := match a with NNanF => true | _ => false end.
+
 Definition num_is_zero (a : numv) : bool :=
   match a with NFin n _ _ => n =? 0 | _ => false end.
 
@@ -192,7 +194,9 @@ Definition py_in (x : pyval) (xs : list pyval) : bool := existsb (fun y => py_eq
 Definition py_cmp (a b : pyval) : out (option comparison) :=
   match num_of a, num_of b with
   | Some na, Some nb =>
-      if has_dnan na nb then Raise (other_err XArith) else Ok (num_cmp na nb)
+      (* ordering against a Decimal NaN, or a float NaN against any Decimal, signals InvalidOperation *)
+      if has_dnan na nb || (is_fnan na && is_decimal b) || (is_fnan nb && is_decimal a)
+      then Raise (other_err XArith) else Ok (num_cmp na nb)
   | _, _ =>
     match a, b with
     | PStr x, PStr y => Ok (Some (str_cmp x y))
